@@ -65,12 +65,15 @@ REDIR_DENY := strtok rand srand random srandom strerror asctime ctime gmtime loc
               getpwnam getpwuid getgrnam getgrgid setlocale ttyname getenv \
               time clock_gettime gettimeofday getpid
 redir = $(foreach s,$(1),--redefine-sym $(s)=sim_$(s))
+# the library's writable static state goes into its own output sections so that the
+# executor can put it back to its initial value before every run (one run = one plan)
+LIBSTATE := --rename-section .data=libdata --rename-section .bss=libbss --rename-section .data.rel.local=libdata
 
 # ---- library objects per variant
 define LIBRULE
-$(B)/$(1)/%.o: $(REPO)/lib/%.c $(GENHDR) $(REPO)/config.h
+$(B)/$(1)/%.o: $(REPO)/lib/%.c $(GENHDR) $(REPO)/config.h $(V)/Makefile
 	@echo CC[$(1)] $$(notdir $$<); $(2) $(LIBCPP) -MMD -MP -MT $$@ -MF $$@.d -c $$< -o $$@.raw.o
-	@$(OBJCOPY) $(3) --globalize-symbol=nr_encrypt_ctx $$@.raw.o $$@
+	@$(OBJCOPY) $(3) $(4) --globalize-symbol=nr_encrypt_ctx $$@.raw.o $$@
 $(1)_LIBOBJ := $(addprefix $(B)/$(1)/,$(addsuffix .o,$(LIBBASE)))
 -include $(addprefix $(B)/$(1)/,$(addsuffix .o.d,$(LIBBASE)))
 endef
@@ -80,13 +83,12 @@ THR_FLAGS  := -O2 -g -fno-omit-frame-pointer -fsanitize=thread
 O0_FLAGS   := -O0 -g
 REF_FLAGS  := -O2 -g
 
-$(eval $(call LIBRULE,asan,$(CLANG) $(ASAN_FLAGS),$(call redir,$(REDIR_MEM) $(REDIR_DENY))))
-$(eval $(call LIBRULE,thr,$(CLANG) $(THR_FLAGS),$(call redir,$(REDIR_MEM) $(REDIR_THR) $(REDIR_DENY))))
-$(eval $(call LIBRULE,O0,$(GCC) $(O0_FLAGS),$(call redir,$(REDIR_MEM) $(REDIR_DENY))))
-$(eval $(call LIBRULE,ref,$(CLANG) $(REF_FLAGS),))
+$(eval $(call LIBRULE,asan,$(CLANG) $(ASAN_FLAGS),$(call redir,$(REDIR_MEM) $(REDIR_DENY)),$(LIBSTATE)))
+$(eval $(call LIBRULE,thr,$(CLANG) $(THR_FLAGS),$(call redir,$(REDIR_MEM) $(REDIR_THR) $(REDIR_DENY)),$(LIBSTATE)))
+$(eval $(call LIBRULE,O0,$(GCC) $(O0_FLAGS),$(call redir,$(REDIR_MEM) $(REDIR_DENY)),$(LIBSTATE)))
+$(eval $(call LIBRULE,ref,$(CLANG) $(REF_FLAGS),,))
 
 # ---- harness
-HSRC := $(SIM)/engine.cc $(SIM)/gen.cc $(SIM)/memlayer.cc $(SIM)/desmodel.cc $(SIM)/refclient.cc $(SIM)/util.cc $(SIM)/stubs.cc
 HHDR := $(wildcard $(SIM)/*.hh) $(wildcard $(SIM)/*.h)
 FAILTOK := $(or $(shell sed -n 's/^#define ENABLE_FAILURE_TOKENS  *//p' $(REPO)/config.h),0)
 HCPP := -std=c++17 -I$(GEN) -I$(SIM) -Wall -Wno-unused-function -Wno-unused-variable \
@@ -100,12 +102,24 @@ $(B)/h/prim-thr.o: $(SIM)/prim.c $(GENHDR) $(wildcard $(REPO)/lib/*.h)
 $(B)/h/prim-O0.o: $(SIM)/prim.c $(GENHDR) $(wildcard $(REPO)/lib/*.h)
 	$(GCC) $(PRIMCPP) -O0 -g -c $< -o $@
 
-$(B)/simcrypt-asan: $(V)/Makefile $(HSRC) $(HHDR) $(asan_LIBOBJ) $(GENHDR) $(B)/h/prim-asan.o
-	$(CLANGXX) $(HCPP) -DSIM_ASAN -O1 -g -fno-omit-frame-pointer -fsanitize=address $(HSRC) $(B)/h/prim-asan.o $(asan_LIBOBJ) $(HLIBS) -o $@
-$(B)/simcrypt-thr: $(V)/Makefile $(HSRC) $(SIM)/thr_rt.cc $(HHDR) $(thr_LIBOBJ) $(GENHDR) $(B)/h/prim-thr.o
-	$(CLANGXX) $(HCPP) -DSIM_THR -O2 -g -fno-omit-frame-pointer $(HSRC) $(SIM)/thr_rt.cc $(B)/h/prim-thr.o $(thr_LIBOBJ) $(HLIBS) -o $@
-$(B)/simcrypt-O0: $(V)/Makefile $(HSRC) $(HHDR) $(O0_LIBOBJ) $(GENHDR) $(B)/h/prim-O0.o
-	$(GXX) $(HCPP) -DSIM_O0 -O1 -g $(HSRC) $(B)/h/prim-O0.o $(O0_LIBOBJ) $(HLIBS) -o $@
+HNAMES := engine gen memlayer desmodel refclient util stubs
+define HRULE
+$(B)/h/$(1)/%.o: $(SIM)/%.cc $(HHDR) $(GENHDR) $(V)/Makefile
+	@mkdir -p $(B)/h/$(1)
+	@echo CXX[$(1)] $$(notdir $$<); $(2) $(HCPP) -c $$< -o $$@
+$(1)_HOBJ := $(addprefix $(B)/h/$(1)/,$(addsuffix .o,$(HNAMES)))
+endef
+$(eval $(call HRULE,asan,$(CLANGXX) -DSIM_ASAN -O1 -g -fno-omit-frame-pointer -fsanitize=address))
+$(eval $(call HRULE,thr,$(CLANGXX) -DSIM_THR -O2 -g -fno-omit-frame-pointer))
+$(eval $(call HRULE,O0,$(GXX) -DSIM_O0 -O1 -g))
+$(eval $(call HRULE,rng,$(CLANGXX) -DSIM_ASAN -DSIM_RNG -O1 -g -fno-omit-frame-pointer -fsanitize=address))
+
+$(B)/simcrypt-asan: $(asan_HOBJ) $(asan_LIBOBJ) $(B)/h/prim-asan.o
+	$(CLANGXX) -fsanitize=address $(asan_HOBJ) $(B)/h/prim-asan.o $(asan_LIBOBJ) $(HLIBS) -o $@
+$(B)/simcrypt-thr: $(thr_HOBJ) $(B)/h/thr/thr_rt.o $(thr_LIBOBJ) $(B)/h/prim-thr.o
+	$(CLANGXX) $(thr_HOBJ) $(B)/h/thr/thr_rt.o $(B)/h/prim-thr.o $(thr_LIBOBJ) $(HLIBS) -o $@
+$(B)/simcrypt-O0: $(O0_HOBJ) $(O0_LIBOBJ) $(B)/h/prim-O0.o
+	$(GXX) $(O0_HOBJ) $(B)/h/prim-O0.o $(O0_LIBOBJ) $(HLIBS) -o $@
 $(B)/refsrv: $(SIM)/refsrv.c $(ref_LIBOBJ) $(GENHDR)
 	$(CLANG) -O2 -g -I$(GEN) -I$(REPO) -I$(REPO)/lib $(SIM)/refsrv.c $(ref_LIBOBJ) -o $@
 
@@ -121,8 +135,8 @@ endef
 $(foreach v,$(RNGV),$(eval $(call RNGRULE,$(v))))
 RNGOBJ := $(foreach v,$(RNGV),$(B)/rng/grb$(v).o)
 RNG_LIBOBJ := $(filter-out $(B)/asan/util-get-random-bytes.o,$(asan_LIBOBJ))
-$(B)/rngsim: $(V)/Makefile $(HSRC) $(SIM)/rngdev.cc $(HHDR) $(RNGOBJ) $(RNG_LIBOBJ) $(GENHDR) $(B)/h/prim-asan.o
-	$(CLANGXX) $(HCPP) -DSIM_ASAN -DSIM_RNG -O1 -g -fno-omit-frame-pointer -fsanitize=address $(HSRC) $(SIM)/rngdev.cc $(B)/h/prim-asan.o $(RNGOBJ) $(RNG_LIBOBJ) $(HLIBS) -o $@
+$(B)/rngsim: $(rng_HOBJ) $(B)/h/rng/rngdev.o $(RNGOBJ) $(RNG_LIBOBJ) $(B)/h/prim-asan.o
+	$(CLANGXX) -fsanitize=address $(rng_HOBJ) $(B)/h/rng/rngdev.o $(B)/h/prim-asan.o $(RNGOBJ) $(RNG_LIBOBJ) $(HLIBS) -o $@
 
 # ---- identity of the tree under test and its external surface
 $(B)/tree.sha: $(LIBSRC) $(wildcard $(REPO)/lib/*.h) $(REPO)/lib/hashes.conf $(REPO)/config.h $(GEN)/.dir
